@@ -117,6 +117,10 @@ for tr, sym in [("Mul", "*"), ("Div", "/"), ("Rem", "%"), ("Shr", ">>"), ("Shl",
 add("Not:struct", STD_DERIVES + " #[derive(derive_more::Not)] pub struct T(pub i32, pub bool);", ['format!("{:?}", !M::T(1, true))'])
 add("Neg:struct", STD_DERIVES + " #[derive(derive_more::Neg)] pub struct T { pub a: i32 }", ['format!("{:?}", -M::T { a: 1 })'])
 add("Not:enum", STD_DERIVES + " #[derive(derive_more::Not)] pub enum T { A(i32), U }", ['format!("{:?}|{}", (!M::T::A(1)).ok(), (!M::T::U).is_err())'])
+add("Not:enum_mixed", STD_DERIVES + " #[derive(derive_more::Not)] pub enum T { A(i32), B { x: i32 }, U }",
+    ['format!("{:?}|{:?}|{}", (!M::T::A(1)).ok(), (!M::T::B { x: 2 }).ok(), (!M::T::U).is_err())'])
+add("Neg:enum_mixed", STD_DERIVES + " #[derive(derive_more::Neg)] pub enum T { A(i32), B { x: i32 }, V(), W {}, U }",
+    ['format!("{:?}|{:?}|{:?}|{}", (-M::T::A(1)).ok(), (-M::T::B { x: 2 }).ok(), (-M::T::V()).ok(), (-M::T::U).is_err())'])
 add("Neg:enum", STD_DERIVES + " #[derive(derive_more::Neg)] pub enum T { A(i32), B { x: i32 } }", ['format!("{:?}", -M::T::A(1))'])
 add("Sum", STD_DERIVES + " #[derive(derive_more::Sum, derive_more::Add)] pub struct T(pub i32, pub i32);",
     ['format!("{:?}", ::core::iter::Iterator::sum::<M::T>(::std::vec![M::T(1, 2), M::T(3, 4)].into_iter()))'])
